@@ -14,6 +14,7 @@ import (
 	"net/http/httptest"
 	"os"
 	"path/filepath"
+	"runtime"
 	"strings"
 	"sync"
 	"time"
@@ -23,6 +24,7 @@ import (
 	hugecache "github.com/rpcpool/yellowstone-faithful/huge-cache"
 	"github.com/rpcpool/yellowstone-faithful/indexes"
 	"github.com/rpcpool/yellowstone-faithful/zz_verif/cargen"
+	"github.com/rpcpool/yellowstone-faithful/zz_verif/vfh"
 	"github.com/urfave/cli/v2"
 	"github.com/valyala/fasthttp"
 	"k8s.io/klog/v2"
@@ -215,7 +217,82 @@ type vfRPCResponse struct {
 }
 
 // vfCall invokes the real HTTP handler with a raw body.
+// vfWatch: hang detector for single in-process requests (armed by the checks whose property includes
+// "the request is answered"). A request that has not returned after vfWatch.limit is examined: if its
+// goroutine is parked on a channel / lock / wait group (it cannot make progress by itself any more) the
+// case is reported as a violation with the goroutine's stack; if it is still running or in a system call
+// the run ends inconclusive (exit 2) - slowness is never reported as a violation.
+var vfWatch struct {
+	run   *vfh.Run
+	prop  string
+	limit time.Duration
+}
+
+func vfArmWatch(run *vfh.Run, prop string) {
+	vfWatch.run, vfWatch.prop = run, prop
+	vfWatch.limit = time.Duration(vfh.EnvInt("VERIF_HANG_S", 90)) * time.Second
+}
+
+func vfWatchedBody(f func()) { f() }
+
+// vfWatched runs f (one request) under the hang detector.
+func vfWatched(where string, f func()) {
+	if vfWatch.prop == "" {
+		f()
+		return
+	}
+	done := make(chan struct{})
+	go func() {
+		defer close(done)
+		vfWatchedBody(f)
+	}()
+	tm := time.NewTimer(vfWatch.limit)
+	defer tm.Stop()
+	select {
+	case <-done:
+		return
+	case <-tm.C:
+	}
+	buf := make([]byte, 8<<20)
+	buf = buf[:runtime.Stack(buf, true)]
+	state, stack := "", ""
+	for _, g := range strings.Split(string(buf), "\n\n") {
+		if strings.Contains(g, "vfWatchedBody") {
+			stack = g
+			if i, j := strings.Index(g, "["), strings.Index(g, "]"); i >= 0 && j > i {
+				state = g[i+1 : j]
+			}
+			break
+		}
+	}
+	parked := false
+	for _, p := range []string{"chan send", "chan receive", "select", "semacquire", "sync.", "sleep"} {
+		if strings.HasPrefix(state, p) {
+			parked = true
+		}
+	}
+	if !parked {
+		fmt.Printf("VF-INCONCLUSIVE %s: no answer after %s but the request goroutine is %q\n%s\n", where, vfWatch.limit, state, stack)
+		os.Exit(2)
+	}
+	if len(stack) > 3000 {
+		stack = stack[:3000]
+	}
+	fmt.Printf("request goroutine:\n%s\n", stack)
+	if vfWatch.run == nil { // replay mode
+		fmt.Printf("%s violated: %s was not answered: after %s the request goroutine is parked in [%s]\n", vfWatch.prop, where, vfWatch.limit, state)
+		os.Exit(1)
+	}
+	vfWatch.run.AbortLast(fmt.Sprintf("%s violated: %s was not answered: after %s the request goroutine is parked in [%s] and nothing can wake it", vfWatch.prop, where, vfWatch.limit, state))
+}
+
 func vfCallRaw(h func(*fasthttp.RequestCtx), method, path string, body []byte) *vfRPCResponse {
+	var out *vfRPCResponse
+	vfWatched(fmt.Sprintf("%s %s %s", method, path, vfh.Short(string(body), 160)), func() { out = vfCallRaw0(h, method, path, body) })
+	return out
+}
+
+func vfCallRaw0(h func(*fasthttp.RequestCtx), method, path string, body []byte) *vfRPCResponse {
 	var req fasthttp.Request
 	req.Header.SetMethod(method)
 	req.SetRequestURI(path)
